@@ -252,9 +252,9 @@ impl AdaptiveSimdSelector {
         // Cache the result (lock-free insert with capacity check)
         if self.selection_cache.len() >= self.config.max_cache_entries {
             // Simple LRU eviction: remove first entry (DashMap iteration is lock-free)
-            if let Some(entry) = self.selection_cache.iter().next() {
-                let first_key = *entry.key();
-                drop(entry); // Release the reference before removal
+            // the iterator keeps its shard read-locked: finish with it (statement end) before remove() takes the write lock
+            let first_key = self.selection_cache.iter().next().map(|entry| *entry.key());
+            if let Some(first_key) = first_key {
                 self.selection_cache.remove(&first_key);
             }
         }
